@@ -156,7 +156,7 @@ theorem it_nodup_eraseDups (l : List String) : l.eraseDups.Nodup := by
     simp
 termination_by l.length
 
-theorem mem_chromsInOrder (t : Table) (c : String) : c ∈ chromsInOrder t ↔ ∃ r ∈ t, r.chrom = c := by
+theorem mem_chromsInOrder_tbl (t : Table) (c : String) : c ∈ chromsInOrder t ↔ ∃ r ∈ t, r.chrom = c := by
   simp [chromsInOrder, List.mem_eraseDups]
 
 theorem flatMap_keys_filter (f : Table → Table) (S : Table)
@@ -196,10 +196,10 @@ theorem rowsOf_groups (f : Table → Table) (S : Table) (hnil : f [] = [])
   · rfl
   · rename_i hc
     have : S.filter (fun r => r.chrom == c) = [] :=
-      rowsOf_eq_nil S c (fun r hr h => hc ((mem_chromsInOrder S c).mpr ⟨r, hr, h⟩))
+      rowsOf_eq_nil S c (fun r hr h => hc ((mem_chromsInOrder_tbl S c).mpr ⟨r, hr, h⟩))
     rw [this, hnil]
 
-theorem mergeGo_chrom (bp : Int) (cur : Row) (genes : List String) (l : List Row) (c : String)
+theorem mergeGo_chrom_tbl (bp : Int) (cur : Row) (genes : List String) (l : List Row) (c : String)
     (hc : cur.chrom = c) (hl : ∀ r ∈ l, r.chrom = c) : ∀ r ∈ mergeGo bp cur genes l, r.chrom = c := by
   induction l generalizing cur genes with
   | nil =>
@@ -217,19 +217,19 @@ theorem mergeGo_chrom (bp : Int) (cur : Row) (genes : List String) (l : List Row
       · exact ih x _ hx hxs r h
     · exact ih _ _ hc hxs
 
-theorem mergeChrom_chrom (bp : Int) (c : String) (l : List Row) (hl : ∀ r ∈ l, r.chrom = c) :
+theorem mergeChrom_chrom_tbl (bp : Int) (c : String) (l : List Row) (hl : ∀ r ∈ l, r.chrom = c) :
     ∀ r ∈ mergeChrom bp l, r.chrom = c := by
   cases l with
   | nil => intro r hr; simp [mergeChrom] at hr
   | cons x xs =>
-    exact mergeGo_chrom bp x _ xs c (hl x (by simp)) (fun r hr => hl r (by simp [hr]))
+    exact mergeGo_chrom_tbl bp x _ xs c (hl x (by simp)) (fun r hr => hl r (by simp [hr]))
 
 /-- the general (sorting) path of `merge`, seen from one chromosome -/
 theorem rowsOf_mergeGeneral (bp : Int) (t : Table) (c : String) :
     rowsOf (resortChrom ((groupByChrom (sortLex t)).flatMap (fun g => mergeChrom bp g.2))) c =
       mergeChrom bp (rowsOf (sortLex t) c) := by
   rw [rowsOf_resortChrom]
-  exact rowsOf_groups (mergeChrom bp) (sortLex t) rfl (fun c l => mergeChrom_chrom bp c l) c
+  exact rowsOf_groups (mergeChrom bp) (sortLex t) rfl (fun c l => mergeChrom_chrom_tbl bp c l) c
 
 /-! ### the fast path of `merge`: every start exceeds the running maximum of the earlier ends -/
 
@@ -303,7 +303,7 @@ theorem selectRange_nil (qs qe : Option Int) (mode : Mode) : selectRange [] qs q
 theorem chromsInOrder_single (t : Table) (c0 : String) (h : chromsInOrder t = [c0]) :
     ∀ r ∈ t, r.chrom = c0 := by
   intro r hr
-  have : r.chrom ∈ chromsInOrder t := (mem_chromsInOrder t _).mpr ⟨r, hr, rfl⟩
+  have : r.chrom ∈ chromsInOrder t := (mem_chromsInOrder_tbl t _).mpr ⟨r, hr, rfl⟩
   rw [h] at this
   simpa using this
 
@@ -357,7 +357,7 @@ theorem mem_byRangesDf (om a : Table) (mode : Mode) (q : Row × Table) :
       exact ⟨k, (List.mem_filter.mp hk).1, by rw [hkc]⟩
     · rintro ⟨k, hk, rfl⟩
       refine ⟨(k.chrom, a.filter (fun r => r.chrom == k.chrom)),
-        ⟨k.chrom, (mem_chromsInOrder a _).mpr ⟨k, hk, rfl⟩, rfl⟩, k, ?_, rfl⟩
+        ⟨k.chrom, (mem_chromsInOrder_tbl a _).mpr ⟨k, hk, rfl⟩, rfl⟩, k, ?_, rfl⟩
       exact List.mem_filter.mpr ⟨hk, by simp⟩
 
 /-! ### subtract -/
